@@ -29,6 +29,7 @@ ASSUMPTIONS = [
     "mutations aimed at the virtual root itself are not generated",
 ]
 REQUIRED_MONITORS = ["reply_vs_model", "tree_vs_model", "silence", "alive"]
+ANCHOR_FUNCTIONS = ['server.py:Server.dispatcher', 'server.py:Server.rest', 'server.py:Server.rnto', 'server.py:Server.write_response']
 EXHAUSTIVE = {"quick": False, "thorough": False}
 WALL_BUDGET = {"quick": 900, "thorough": 7200}
 
